@@ -740,6 +740,20 @@ def zipOps (a : Ops σ β) (b : Ops τ (List β)) : Ops (σ × τ) (List β) :=
       | _, _ => none)
     (fun s => zipBound (a.bound s.1) (b.bound s.2))
 
+/-- re-type the elements of a stream without touching which methods are overridden -/
+def mapOut (f : β → γ) (o : Ops σ β) : Ops σ γ :=
+  let sl : SliceRes σ β → SliceRes σ γ := fun
+    | .list l => .list (l.map f)
+    | .strm s => .strm s
+  { next := mapNext o.next f
+    peek := fun s => (o.peek s).map f
+    bound := o.bound
+    len := o.len
+    force := fun s => (o.force s).map (List.map f)
+    index := fun s i => (o.index s i).map f
+    slice := fun s lo hi => (o.slice s lo hi).map sl
+    reversed := fun s => (o.reversed s).map sl }
+
 /-- a `ZippedStream` of a single stream: one-element argument lists -/
 def zipOne (a : Ops σ β) : Ops σ (List β) := mapOps a fun x => [x]
 end Adaptors
